@@ -572,3 +572,104 @@ def c05(ctx):
     ctx.cov["rule"] = ("one evaluation = one (program, input pair) run in both modes; programs are alias-heavy (casts, constant shifts, "
                        "slices, array updates, concatenations, struct copies) templates and seeded generated programs; all are non-trivial; "
                        "classes: template / generated / big-ids (> 65535 live wire ids) / rejected (does not compile)")
+
+
+# ---------------------------------------------------------------------- C17
+POOL_CFG = """SPECIFICATION Spec
+CONSTANTS
+  Procs = %s
+  MaxOps = %d
+  UseCAS = %s
+  ReleaseClears = %s
+  PutOnReturn = %s
+INVARIANT Safety
+CHECK_DEADLOCK FALSE
+"""
+
+
+@prop("C17")
+def c17(ctx):
+    thorough = ctx.tier == "thorough"
+    ctx.build()
+    ctx.assumptions += ["a garbling is released only by the goroutine that made it (concurrent Release of ONE handle is outside the property)",
+                        "freedom from data races is decided by the Go race detector on the recorded stress runs, not by TLC"]
+    # (M) all interleavings of Load / CAS / Get / fill / Release / runtime drops
+    confs = [("{1, 2}", 3), ("{1, 2, 3}", 2)] + ([("{1, 2}", 5)] if thorough else [])
+    for procs, ops in confs:
+        ctx.tlc_expect_ok("Pool", "Pool_mc.cfg", name="pool-mc-%d-%d" % (len(procs), ops), timeout=3400, heap="16g",
+                          cfg_text=POOL_CFG % (procs, ops, "TRUE", "TRUE", "FALSE"))
+    guards = {}
+    for nm, cas, clr, put in (("release-keeps-handle", "TRUE", "FALSE", "FALSE"),
+                              ("put-on-return", "TRUE", "TRUE", "TRUE")):
+        r = ctx.tlc("Pool", "Pool_mc.cfg", name="pool-guard-" + nm, cfg_text=POOL_CFG % ("{1, 2}", 3, cas, clr, put), timeout=1500)
+        guards[nm] = r["status"]
+        if r["status"] != "invariant":
+            raise Broken("Pool.tla does not reject the deviation %s (%s)" % (nm, r["status"]))
+    ctx.cov["spec_rejects_deviations"] = guards
+    # (G) forced lazy-creation race through the gate
+    cres = os.path.join(ctx.tmp, "c17cas.ndjson")
+    def run_or_crash(args, **kw):
+        """a Go runtime crash (fatal error / SIGSEGV / unrecovered panic inside library goroutines) while several
+        goroutines share one circuit is the property failing, not the machinery"""
+        p = ctx.run_vh(args, check=False, **kw)
+        if p.returncode != 0:
+            err = p.stderr or ""
+            if any(s in err for s in ("fatal error:", "SIGSEGV", "panic:", "unexpected fault address", "signal ")):
+                first = next((l for l in err.splitlines() if l.strip()), "")
+                ctx.violation("crash:process-died", "the process dies while goroutines share one circuit value: %s" % first[:200], err[:3000])
+                return False
+            raise Broken("harness failed rc=%d: %s" % (p.returncode, err[-2000:]))
+        return True
+
+    if run_or_crash(["c17", "casrace", cres, 60 if thorough else 12], timeout=1500):
+        ctx.absorb(cres)
+    # (T) stress histories
+    trace = os.path.join(ctx.tmp, "pool_trace.ndjson")
+    res = os.path.join(ctx.tmp, "c17res.ndjson")
+    rounds = 400 if thorough else 60
+    if not run_or_crash(["c17", "stress", trace, res, rounds], timeout=3000):
+        return
+    n = ctx.absorb(res)
+    rows = read_ndjson(trace)
+    ctx.cov["trace_events"] = len(rows)
+    t = ctx.tlc("PoolTrace", "PoolTrace.cfg", mode="trace", files=[trace], timeout=3000)
+    if t["status"] == "invariant":
+        ctx.violation("trace:Exclusive", "two garblings that were both not yet released use the same scratch buffer", t["out"][-2000:])
+    elif t["status"] != "ok":
+        raise Broken("PoolTrace failed: %s\n%s" % (t["status"], t["out"][-3000:]))
+    else:
+        ctx.cov["traces_validated_against_impl"] += n
+    # the same stress under the race detector
+    vr = ctx.build(race=True)
+    rres = os.path.join(ctx.tmp, "c17race.ndjson")
+    rtr = os.path.join(ctx.tmp, "race_trace.ndjson")
+    p = ctx.run_vh(["c17", "stress", rtr, rres, 40 if thorough else 10], binary=vr, timeout=3000, check=False,
+                   env={"GORACE": "exitcode=66 halt_on_error=0"})
+    if "WARNING: DATA RACE" in p.stderr:
+        import re
+        where = sorted(set(re.findall(r"(/repo/[\w/]+\.go:\d+)", p.stderr)))[:6]
+        ctx.violation("data-race", "the race detector reports a data race on a shared circuit: %s" % ", ".join(where), p.stderr[:3000])
+    elif p.returncode != 0:
+        raise Broken("race-detector run failed rc=%d\n%s" % (p.returncode, p.stderr[-2000:]))
+    else:
+        if os.path.exists(rres):
+            ctx.absorb(rres)
+        ctx.cov["race_detector_rounds"] = 40 if thorough else 10
+    # binding self-test
+    r2 = [dict(r) for r in rows]
+    gi = [i for i, r in enumerate(r2) if r["ev"] == "garbled"]
+    if len(gi) >= 2:
+        a = r2[gi[0]]
+        # a second garbling gets the same buffer while the first is live
+        j = gi[0] + 1
+        r2.insert(j, {"ev": "garbled", "g": 99, "h": 999999, "buf": a["buf"]})
+        p2 = os.path.join(ctx.tmp, "selftest", "pool_trace.ndjson")
+        os.makedirs(os.path.dirname(p2), exist_ok=True)
+        write_ndjson(p2, r2)
+        x = ctx.tlc("PoolTrace", "PoolTrace.cfg", mode="trace", files=[p2], name="pool-selftest")
+        if x["status"] != "invariant":
+            raise Broken("binding self-test: PoolTrace accepted a shared buffer")
+        ctx.cov["binding_selftest"] = {"shared-buffer": x["status"]}
+    ctx.cov["rule"] = ("one evaluation = one round: 2..8 goroutines x 6..15 operations (Garble/Eval-check/Release/double Release/Compute) on one "
+                       "fresh shared circuit under GOMAXPROCS 1, 2 or 16; every round is non-trivial")
+    ctx.check_drift()
